@@ -239,6 +239,11 @@ pub fn eval_fault(b: &Base, archive: &[u8], cstar: usize, f: &Fault, comp_plain:
             rep.violate(Violation { sig: json!({"kind": "panic", "panic": p.sig()}), detail: format!("authenticated repair panicked: {p:?}"), replay, weight });
             return;
         }
+        RepairEval::OutputUnreadable(e) => {
+            // what was written is not an archive the normal reader can open: never acceptable
+            rep.violate(Violation { sig: sig("auth_output_unreadable"), detail: format!("fault {:?}: the archive written by authenticated repair cannot be read: {e}", f), replay, weight });
+            return;
+        }
         other => {
             // refusing to repair is not "wrong data"; counted
             rep.count(&format!("auth_{}", other.class()), 1);
@@ -372,7 +377,7 @@ pub fn run(started: Instant) -> i32 {
                 inc.extend_from_slice(&evil[9..]);
                 for unauth in [false, true] {
                     rep0.evaluations += 1;
-                    if let RepairEval::Done(r) = sweep::repair_eval(&inc, &[0], unauth) {
+                    if let RepairEval::Done(r) = sweep::repair_eval_route(&inc, &[0], unauth, 1) {
                         if r.files.contains_key("evil") {
                             rep0.violate(Violation {
                                 sig: json!({"kind": "incoherent_header_repaired_with_attacker_data", "layers": b.cfg.layers.tag()}),
@@ -388,7 +393,9 @@ pub fn run(started: Instant) -> i32 {
                 d.extend_from_slice(&evil[9..]);
                 rep0.evaluations += 1;
                 rep0.transitions += 3;
-                if let RepairEval::Done(r) = sweep::repair_eval(&d, &[0], false) {
+                // (route 1: the recipient's key IS configured - the length-based rotation of `repair_eval` would drop it
+                // for an archive that announces no encryption)
+                if let RepairEval::Done(r) = sweep::repair_eval_route(&d, &[0], false, 1) {
                     rep0.class("header-downgrade/auth:done");
                     if r.files.contains_key("evil") {
                         rep0.violate(Violation {
@@ -469,7 +476,7 @@ pub fn replay(path: &str) -> i32 {
     let v = super::load_replay(path);
     if v["downgrade"].as_bool().unwrap_or(false) {
         let bytes = hex::decode(v["input_hex"].as_str().unwrap_or("")).unwrap_or_default();
-        let bad = matches!(sweep::repair_eval(&bytes, &[0], false), RepairEval::Done(r) if r.files.contains_key("evil"));
+        let bad = matches!(sweep::repair_eval_route(&bytes, &[0], false, 1), RepairEval::Done(r) if r.files.contains_key("evil"));
         println!("replay: authenticated-only repair of the downgraded archive writes the attacker's file: {bad}");
         if bad {
             println!("VIOLATION property=C04 replay={path}");
